@@ -45,6 +45,23 @@ def check_box_selection(ctx, fi, P=P):
               f"a box selector matching none of the isinstance tests (e.g. numpy.int64 from np.nonzero / "
               f"np.argmax) falls through and the call returns None instead of raising",
               key="dispatch", where=loc(fi, node))
+    # EMPTY-GUARD: a shortcut that answers "no boxes" tests the *length* of the selection, not its values (index 0
+    # and False are values)
+    for g in ast.walk(fi.node):
+        if isinstance(g, ast.If) and len(g.body) == 1 and isinstance(g.body[0], ast.Return) and \
+                isinstance(g.body[0].value, (ast.List, ast.Tuple)) and not g.body[0].value.elts and \
+                any(isinstance(x, ast.Name) and x.id == idxp for x in ast.walk(g.test)):
+            t = norm(g.test)
+            by_len = t in (f"len({idxp}) == 0", f"not len({idxp})", f"len({idxp}) < 1", f"{idxp}.size == 0",
+                           f"0 == len({idxp})", f"not {idxp}.size", f"np.size({idxp}) == 0")
+            by_value = any(isinstance(c, ast.Call) and norm(c.func).split(".")[-1] in
+                           ("any", "all", "sum", "count_nonzero", "max", "min", "nonzero") for c in ast.walk(g.test)) or \
+                t in (f"not {idxp}",)
+            ctx.decide(by_len, by_value, f"{P}.EMPTY-GUARD", site,
+                       "the empty-selection shortcut tests the length of the selection",
+                       f"the shortcut `if {t}: return []` decides on the *values* of the selection: an integer selection "
+                       f"made only of box 0 (or a list holding only index 0) is answered with no boxes at all",
+                       key=f"empty:{t[:30]}", where=loc(fi, g))
     # per branch: the task tuple
     n_tasks = 0
     for br in branches:
@@ -176,6 +193,7 @@ def check_stream_init(ctx):
           txt.get("self.size") in (f"len({p[1]})", f"len({p[2]})", "len(self.bfiles)"))
     ctx.check(ok, f"{P}.TABLES", site, "stream keeps the level's files and offsets tables and their length",
               f"stream attributes are {txt}")
+    readers.selector_identity(ctx, P, fi)
     return disp
 
 
